@@ -746,9 +746,7 @@ def install(ip):
         def f(*xs):
             return fz(xs)
         r = yield from ip.elementwise(f, list(args[1:]), None)
-        if not isinstance(r, SArr):
-            r = ip.st.new_array((), lambda idx: r)
-        return r
+        return r          # scalars stay scalars (as in pyvc.api.elementwise)
 
     @reg('builtins.inplace_elementwise')
     def _sinplace(ip, args, kw):
@@ -802,6 +800,16 @@ def install(ip):
         return None
 
     ip.spec_depth_call = 0
+
+    # pint quantity algebra + spec-language helpers for quantities
+    from . import units
+    units.install(ip, M, I)
+    units.install_builtins(M, I)
+
+    @reg('builtins.make_qty')
+    def _make_qty(ip, args, kw):
+        regy, mag, unit = args
+        return units.reg_quantity(ip, regy, mag, unit, I)
 
 
 def freeze(ip, f):
@@ -1010,18 +1018,21 @@ def deepcopy_value(ip, v, memo_):
 
 
 # ---------------------------------------------------------------------------
-# pint quantity algebra hooks (filled in by contracts for C17)
+# pint quantity algebra (pyvc/units.py)
 
 def qty_binop(ip, op, a, b):
-    raise Unsupported('quantity arithmetic')
+    from . import units
+    return units.qty_binop(ip, op, a, b)
 
 
 def qty_neg(ip, op, a):
-    raise Unsupported('quantity arithmetic')
+    from . import units
+    return units.qty_neg(ip, op, a)
 
 
 def qty_getattr(ip, obj, name):
-    raise Unsupported('quantity attribute')
+    from . import units
+    return units.qty_getattr(ip, obj, name)
 
 
 def qty_getitem(ip, obj, key):
@@ -1029,4 +1040,10 @@ def qty_getitem(ip, obj, key):
 
 
 def reg_call(ip, reg, args):
-    raise Unsupported('unit registry call')
+    from . import units
+    return units.reg_call(ip, reg, args)
+
+
+def qty_compare(cmp, name, a, b):
+    from . import units
+    return units.qty_compare(cmp, name, a, b)
